@@ -176,6 +176,8 @@ def run(ck, rng):
                 bad = "re-adding existing names changed the tree"
         if bad:
             ck.violation({"property": "C03", "kind": "root_vs_markdown", "class": name, "case": cases[i], "got": impl[i][-600:], "why": bad})
+        elif any(len(pp.split(" ")) > 1 and pp.split(" ")[1].startswith("x") for pp in parts):
+            ck.count("yaml_toml_undecodable_not_compared_with_model")     # names that are not UTF-8: outside every claim (opaque encoders)
         elif impl[i] != model[i] and not cases[i].startswith("mhist"):
             broken = broken or (cases[i][:1500], impl[i][-300:], model[i][-300:])
     return broken
